@@ -227,6 +227,15 @@ def _spec_toks(spec):
     return _ptoks(spec[2:])
 
 
+def _letters(tok):
+    """letter-symbol token -> bytes or str: `65` one byte; `71.84` the two-letter bytes b"GT"; `71.84s` the str "GT";
+    `.` / `.s` the empty bytes / str (multi-letter and empty tokens are only legal arguments of single-symbol encode)"""
+    as_str = tok.endswith("s")
+    body = tok[:-1] if as_str else tok
+    b = bytes(int(x) for x in body.split(".") if x != "")
+    return b.decode("latin-1") if as_str else b
+
+
 def _index(tok):
     """`<int>` -> Python int, `<int>:<dtype>` -> numpy integer scalar of that dtype"""
     if ":" in tok:
@@ -294,7 +303,7 @@ class _A:
 
     def sym(self, tok):
         if self.letter:
-            return bytes([int(tok)])
+            return _letters(tok)
         return tok_to_sym(tok)
 
     def show(self, symbols):
@@ -339,7 +348,8 @@ class _NucA:
         return bytes(int(t) for t in toks).decode("latin-1")
 
     def sym(self, tok):
-        return chr(int(tok))
+        r = _letters(tok)
+        return r.decode("latin-1") if ("." not in tok) else r      # single letters as str; multi-letter as bytes or str
 
     show = _A.show
     show1 = _A.show1
@@ -598,6 +608,21 @@ def _rand_codes(rng, n_alph, n, dt, p_bad=0.0):
     return out
 
 
+def _multi_letter(rng, al):
+    """a str/bytes that is NOT a single letter: two or more letters whose first (or every) letter is in the alphabet, or empty"""
+    r = rng.random()
+    if r < 0.12:
+        body = "."
+    else:
+        n = rng.choice([2, 2, 3, 3, 5])
+        first = rng.choice(al)
+        rest = [rng.choice(al) if rng.random() < 0.7 else str(rng.choice(PRINTABLE)) for _ in range(n - 1)]
+        if r > 0.9:
+            first = str(rng.choice(PRINTABLE))
+        body = ".".join([first] + rest)
+    return body + ("s" if rng.random() < 0.5 and all(int(x) < 128 for x in body.split(".") if x) else "")
+
+
 def _case_alphabet(rng):
     spec = _alph_spec(rng)
     al = _spec_syms(spec)
@@ -608,7 +633,10 @@ def _case_alphabet(rng):
         if r < 0.3:
             ops.append(f"enc {spec} {_toks(_rand_syms(rng, spec, n, rng.choice([0, 0, 0.25])))}")
         elif r < 0.4:
-            ops.append(f"enc1 {spec} {_rand_syms(rng, spec, 1, 0.3)[0]}")
+            if spec.startswith("L:") and rng.random() < 0.35:
+                ops.append(f"enc1 {spec} {_multi_letter(rng, al)}")
+            else:
+                ops.append(f"enc1 {spec} {_rand_syms(rng, spec, 1, 0.3)[0]}")
         elif r < 0.8:
             dt = rng.choice(["u8", "u8", "i64", "i64", "u16", "i16", "i32", "u32", "u64", "i8", "list"])
             if spec.startswith("G:") and rng.random() < 0.5:
@@ -727,7 +755,13 @@ def _case_sequence(rng):
         else:
             symtoks = _spec_syms(sp)
         bad = (["33", "97"] if (mode != "gen" or sp.startswith("L:")) else ["sZZ"])
+        bad1 = list(bad)      # for single-symbol assignment only: also strings that are not a single letter
+        if mode != "gen" or sp.startswith("L:"):
+            bad1 += [_multi_letter(rng, symtoks), _multi_letter(rng, symtoks), _multi_letter(rng, symtoks)]
+            if mode == "prot":
+                bad1.append(rng.choice(["65.76.65s", "71.76.89s", "77.69.84"]))      # 3-letter names are not symbols here
         pick = lambda p_bad=0.1: rng.choice(bad) if rng.random() < p_bad else rng.choice(symtoks)   # noqa: E731
+        pick1 = lambda p_bad=0.2: rng.choice(bad1) if rng.random() < p_bad else rng.choice(symtoks)   # noqa: E731
         r = rng.random()
         if r < 0.10:
             new()
@@ -738,7 +772,7 @@ def _case_sequence(rng):
         elif r < 0.42:
             if i in frozen:
                 continue
-            ops.append(f"s_set {i} {typed(rng.randint(-n - 1, n))} {pick()}")
+            ops.append(f"s_set {i} {typed(rng.randint(-n - 1, n))} {pick1()}")
         elif r < 0.52:
             a = rng.choice(["-", str(rng.randint(-n - 2, n + 2))])
             b = rng.choice(["-", str(rng.randint(-n - 2, n + 2))])
@@ -772,7 +806,7 @@ def _case_sequence(rng):
             regs.append((sp, n))
         else:
             n_alph = 4 if mode == "nuc" else 24 if mode == "prot" else len(symtoks)
-            dt = rng.choice(["u8", "i64", "i64", "u16", "i32", "u64"])
+            dt = rng.choice(["u8", "i64", "i64", "u16", "i32", "u64", "i8", "i16"])
             m = rng.choice([0, 1, 3, 5])
             if rng.random() < 0.4 and i not in frozen:
                 a = rng.randint(0, n)
@@ -906,6 +940,29 @@ def _case_pickle(rng):
     if rng.random() < 0.5:
         ops += [rng.choice([f"s_pickle {k - 1}", f"s_deepcopy {k - 1}"]), f"s_str {k}", f"s_copy {k}", f"s_str {k + 1}"]
     return {"kind": "sequence-pickle", "ops": ops}
+
+
+def _case_setcode_full(rng):
+    """code setter / ndarray assignment on alphabets that fill (or nearly fill) the code dtype, with arrays of every
+    integer dtype incl. signed ones of the same or a smaller width holding negative values"""
+    n = rng.choice([256, 256, 256, 255, 257, 65536, 65536, 65535, 94, 128])
+    spec = f"R:{n}:{n}:{_coprime(rng, n)}:{rng.randrange(n)}"
+    al = _spec_toks(spec)
+    ops = [f"s_new {spec} {_toks(rng.choice(al) for _ in range(4))}"]
+    bits = 8 if n <= 256 else 16
+    for _ in range(rng.randint(3, 6)):
+        dt = rng.choice(["i8", "i8", "i16", "i16", "u8", "u16", "i32", "i64", "u32", "u64"])
+        lo, hi = DT_RANGE[dt]
+        pool = [-1, -2, -128, -129, -256, -32768, -n, n - 1, n, n + 1, 127, 128, 255, 256, 32767, 32768, 65535, 65536, 2 ** 32, lo, hi, 0]
+        pool = [v for v in pool if lo <= v <= hi]
+        m = rng.choice([1, 2, 4])
+        vals = [rng.choice(pool) if rng.random() < 0.5 else rng.randrange(min(n, hi + 1)) for _ in range(m)]
+        if rng.random() < 0.65:
+            ops += [f"s_setcode 0 {dt} {_ints(vals)}", "s_str 0", "s_code 0", "s_valid 0"]
+        else:
+            ops += [f"s_setarr 0 0 {m} {dt} {_ints(vals)}", "s_str 0"]
+            ops += ["s_setcode 0 u64 0,1,2,3"]          # back to a known valid state of length 4
+    return {"kind": "sequence-setcode-full", "ops": ops}
 
 
 def _case_eq(rng):
@@ -1113,7 +1170,7 @@ def _case_codon(rng, table_id=None):
 def cases(rng, tier):
     scale = 1 if tier == "quick" else 12
     plan = [(_case_alphabet, 110), (_case_bytes, 16), (_case_newalph, 12), (_case_mapper, 50), (_case_mapper_big, 12),
-            (_case_sequence, 130), (_case_add, 30), (_case_eq, 40), (_case_pickle, 40), (_case_kmer, 110), (_case_kmer_illegal, 20), (_case_codon, 110), (_case_derive, 50)]
+            (_case_sequence, 130), (_case_add, 30), (_case_eq, 40), (_case_pickle, 40), (_case_setcode_full, 30), (_case_kmer, 110), (_case_kmer_illegal, 20), (_case_codon, 110), (_case_derive, 50)]
     for fn, cnt in plan:
         for _ in range(cnt * scale):
             yield fn(rng)
@@ -1161,6 +1218,13 @@ def corpus():
         {"kind": "mapper-big", "ops": ["map R:3:300:7:290 R:300:300:1:0 0,1,2", "map R:2:70000:1:69998 R:70000:70000:1:0 1,0", "map R:300:300:1:0 R:10:10:1:0 0"]},
         {"kind": "kmer-illegal", "ops": ["k_kmers 4 3 - u8 0,1,2,4,3", "k_kmers 4 3 - u8 0,1,2,3,4", "k_kmers 4 3 - u8 4,1,2,3,3", "k_kmers 4 3 - u8 0,1,2,5,3",
                                          "k_kmers 4 3 0,2,3 u8 0,1,2,3,4"]},
+        {"kind": "alphabet", "ops": ["enc1 L:65,67,71,84 71.84s", "enc1 L:65,67,71,84 71.84", "enc1 L:65,67,71,84 .s", "enc1 L:65,67,71,84 .", "enc1 L:65,67,71,84 71",
+                                     "enc1 L:65,67,71,84 71.71.71s"]},
+        {"kind": "sequence-nuc", "ops": ["s_nuc 65,67,71,84", "s_set 0 1 71.84s", "s_str 0", "s_set 0 -1:i64 71.84", "s_set 0 0 .s", "s_str 0",
+                                         "s_prot 65,67,68", "s_set 1 0 65.76.65s", "s_str 1", "s_new L:65,67 65,67", "s_set 2 0 67.65", "s_str 2"]},
+        {"kind": "sequence-setcode-full", "ops": ["s_new R:256:256:1:0 i0,i1,i255", "s_setcode 0 i8 -1,0", "s_str 0", "s_setcode 0 i8 -128", "s_str 0", "s_setcode 0 u8 255,0", "s_str 0",
+                                                  "s_setarr 0 0 1 i8 -1", "s_str 0", "s_new R:65536:65536:1:0 i0,i65535", "s_setcode 1 i16 -1,5", "s_str 1",
+                                                  "s_setcode 1 i8 -1", "s_str 1", "s_setcode 1 u8 255", "s_str 1", "s_setcode 1 u16 65535", "s_str 1"]},
         {"kind": "sequence-pickle", "ops": ["s_nuc 65,67,78,82", "s_pickle 0", "s_copy 1", "s_str 2", "s_eq 2 0", "s_rev 1", "s_str 3", "s_compl 1", "s_str 4",
                                             "s_slice 1 1 -", "s_str 5", "s_add 1 0", "s_str 6", "s_deepcopy 0", "s_copy 7", "s_str 8", "s_valid 8"]},
         {"kind": "codon-names", "ops": ["c_loadname Flatworm~Mitochondrial", "c_load 9", "c_loadname Echinoderm~Mitochondrial", "c_loadname Alternative~Flatworm~Mitochondrial",
@@ -1381,8 +1445,14 @@ def reference(ops):
             elif poisoned:
                 if op == "s_str":
                     e = None if r.get("maybe_unchanged") else ("err", {"AlphabetError"})
-                elif op in ("s_slice", "s_rev", "s_copy", "s_compl", "s_add", "s_pickle", "s_deepcopy"):
+                elif op in ("s_slice", "s_rev", "s_copy", "s_compl", "s_pickle", "s_deepcopy"):
                     regs.append({"kind": r["kind"], "alph": r["alph"], "syms": None, "maybe_unchanged": True})
+                elif op == "s_add":
+                    o = regs[idx[1]]
+                    a, b = r["alph"], o["alph"]
+                    if a[:len(b)] == b or b[:len(a)] == a:
+                        big = r if a[:len(b)] == b else o
+                        regs.append({"kind": big["kind"], "alph": big["alph"], "syms": None, "maybe_unchanged": True})
                 e = e
             elif op == "s_str":
                 e = ("eq", "ok " + _toks(r["syms"]))
@@ -1418,6 +1488,8 @@ def reference(ops):
                 elif len(syms) == width:
                     r["syms"][lo:hi] = syms
                     e = ("eq", "ok " + _toks(r["syms"]))
+                elif len(syms) == 1 and width == 0:
+                    e = ("oneof", {"ok " + _toks(r["syms"]), "ERR:ValueError"})      # nothing to write either way
                 elif len(syms) == 1:
                     # numpy broadcast of one symbol, or a refusal; never anything else
                     cand = list(r["syms"])
